@@ -312,4 +312,9 @@ def r6_clone(F, R):
     R.floor(2)
 
 
-RULES = [("R1", r1, None), ("R2", r2, None), ("R3", r3, None), ("R4", r4, None), ("R5", r5, None), ("R6", r6_clone, None)]
+def r7_cli(F, R):
+    """`--name` fills the name regex and `--tags` the tag expression of `cli::Opts` (clap derive expansion): the two filters are not swapped or renamed."""
+    roles.check_cli_surface(F, R, "cli::Opts")
+    R.floor(2)
+
+RULES = [("R1", r1, None), ("R2", r2, None), ("R3", r3, None), ("R4", r4, None), ("R5", r5, None), ("R6", r6_clone, None), ("R7", r7_cli, None)]
